@@ -4,12 +4,14 @@ import (
 	"fmt"
 	"math/big"
 	"math/rand"
+	"os"
 	"strings"
 	"time"
 
 	abci "github.com/cometbft/cometbft/abci/types"
 	codectypes "github.com/cosmos/cosmos-sdk/codec/types"
 	sdk "github.com/cosmos/cosmos-sdk/types"
+	authante "github.com/cosmos/cosmos-sdk/x/auth/ante"
 	authtx "github.com/cosmos/cosmos-sdk/x/auth/tx"
 	sdkvesting "github.com/cosmos/cosmos-sdk/x/auth/vesting/types"
 	"github.com/cosmos/cosmos-sdk/x/authz"
@@ -22,6 +24,7 @@ import (
 	haqqante "github.com/haqq-network/haqq/app/ante"
 	cosmosante "github.com/haqq-network/haqq/app/ante/cosmos"
 	evmante "github.com/haqq-network/haqq/app/ante/evm"
+	utiltx "github.com/haqq-network/haqq/testutil/tx"
 	haqqtypes "github.com/haqq-network/haqq/types"
 	evmtypes "github.com/haqq-network/haqq/x/evm/types"
 )
@@ -304,10 +307,13 @@ func c06Gen(r *rand.Rand, tier string) []Case {
 			c = append(c, fmt.Sprintf("gate %s %s", pick(r, []string{"e", "e", "-", "d", "w", "e,d"}), fmtList(mixed)))
 		}
 		if ok {
+			c = append(c, fmt.Sprintf("gate712 %s", pick(r, []string{"w", "w,d", "w,w", "w,e", "w,d,d"})))
 			c = append(c, fmt.Sprintf("ante %s %s", pick(r, exts), fmtList(forest)), fmt.Sprintf("ante %s %s", pick(r, []string{"u1", "u2,e", "e,u1", "d,u1", "w,u1"}), fmtList(forest)))
 		}
 		out = append(out, c)
 	}
+	// fixed case: signed EIP-712 transactions, alone and with further options appended after signing
+	out = append(out, Case{"gate712 w", "gate712 w,d", "gate712 w,w", "gate712 w,e", "gate712 w"})
 	return out
 }
 
@@ -412,6 +418,58 @@ func c06Exec(c Case) (outs []string, fails []Failure, tags []string) {
 				out = "ok"
 				if err != nil {
 					out = "reject"
+				}
+			case "gate712":
+				// a validly signed legacy EIP-712 transaction (one bank send) whose extension options are the Web3Tx one followed
+				// by the listed further ones (appended after signing: the signed payload does not cover extension options)
+				_, kr := fixture()
+				key := kr.GetKey(1)
+				denom := nw.GetDenom()
+				msg := banktypes.NewMsgSend(key.AccAddr, kr.GetKey(2).AccAddr, sdk.NewCoins(sdk.NewInt64Coin(denom, 7)))
+				builder, err := utiltx.PrepareEIP712CosmosTx(nw.GetContext(), nw.App, utiltx.EIP712TxArgs{
+					CosmosTxArgs:       utiltx.CosmosTxArgs{TxCfg: txCfg, Priv: key.Priv, ChainID: nw.GetContext().ChainID(), Gas: 200_000, Fees: sdk.NewCoins(sdk.NewInt64Coin(denom, 400_000_000_000_000)), Msgs: []sdk.Msg{msg}},
+					UseLegacyExtension: true, UseLegacyTypedData: true})
+				if err != nil {
+					panic(err)
+				}
+				parts := strings.Split(f[1], ",")
+				if parts[0] != "w" {
+					panic("gate712: the first option is the Web3Tx one")
+				}
+				anys := append([]*codectypes.Any{}, builder.GetTx().(authante.HasExtensionOptionsTx).GetExtensionOptions()...)
+				for _, e := range parts[1:] {
+					var a *codectypes.Any
+					switch e {
+					case "d":
+						a, err = codectypes.NewAnyWithValue(&haqqtypes.ExtensionOptionDynamicFeeTx{MaxPriorityPrice: sdk.NewInt(1)})
+					case "e":
+						a, err = codectypes.NewAnyWithValue(&evmtypes.ExtensionOptionsEthereumTx{})
+					default:
+						a = anys[0]
+					}
+					if err != nil {
+						panic(err)
+					}
+					anys = append(anys, a)
+				}
+				builder.(authtx.ExtensionOptionsTxBuilder).SetExtensionOptions(anys...)
+				bz, err := txCfg.TxEncoder()(builder.GetTx())
+				if err != nil {
+					panic(err)
+				}
+				res := nw.App.BaseApp.DeliverTx(abci.RequestDeliverTx{Tx: bz})
+				out = "reject"
+				if res.Code == 0 {
+					out = "executed"
+					tags = append(tags, "signed-eip712-executed")
+					if len(parts) > 1 {
+						fails = append(fails, Failure{Signature: "C06:gate-bypass:carrying-a-further-extension-option", What: "a signed EIP-712 transaction carrying further extension options (" + f[1] + ") was executed", Case: c[i : i+1]})
+					}
+				} else {
+					tags = append(tags, "signed-eip712-refused", "gate-reject")
+					if os.Getenv("VERIF_DEBUG") != "" {
+						fmt.Fprintln(os.Stderr, "gate712", f[1], res.Log)
+					}
 				}
 			case "gate", "ante":
 				forest := c06Msgs(f[2])
